@@ -93,14 +93,21 @@ impl Config {
 	}
 
 	pub fn get_hook(&self, name: &str) -> Result<Vec<hooks::Hook>, Error> {
-		self.get_hook_rec(name, &mut Vec::new())
+		let mut budget = crate::MAX_HOOK_GROUP_MEMBERS;
+		self.get_hook_rec(name, &mut Vec::new(), &mut budget)
 	}
 
 	fn get_hook_rec(
 		&self,
 		name: &str,
 		parents: &mut Vec<String>,
+		budget: &mut usize,
 	) -> Result<Vec<hooks::Hook>, Error> {
+		// Every member visited counts, whether or not it expands to a hook.
+		if *budget == 0 {
+			return Err(format!("{name}: hook groups contain too many members").into());
+		}
+		*budget -= 1;
 		for hook in self.hook.iter() {
 			if name == hook.name {
 				let h = hooks::Hook {
@@ -129,11 +136,8 @@ impl Config {
 				parents.push(name.to_string());
 				let mut ret = vec![];
 				for hook_name in grp.hooks.iter() {
-					let mut h = self.get_hook_rec(hook_name, parents)?;
+					let mut h = self.get_hook_rec(hook_name, parents, budget)?;
 					ret.append(&mut h);
-					if ret.len() > crate::MAX_HOOKS_PER_GROUP {
-						return Err(format!("{name}: hook group contains too many hooks").into());
-					}
 				}
 				parents.pop();
 				return Ok(ret);
